@@ -39,7 +39,7 @@ func singleReturnValue(fn *ssa.Function) []ssa.Value {
 
 func c15Funnel(c *Ctx) {
 	R := c.R
-	swb := c.P.Func(load.ModPath, "(*Policy).sanitizeWithBuff")
+	swb := bufferFunnel(c)
 	san := c.P.Func(load.ModPath, "(*Policy).sanitize")
 	if swb == nil || san == nil {
 		R.Unknown("C15.R1", "funnel", "sanitizeWithBuff / sanitize", "", "not found")
@@ -114,6 +114,9 @@ func c15Funnel(c *Ctx) {
 			if cl, isC := vals[0].(*ssa.Call); isC && cl.Common().StaticCallee() == swb && cl.Common().Args[1] == ssa.Value(fn.Params[1]) {
 				ok = true
 			}
+		}
+		if fn == swb {
+			ok = true // SanitizeReader is the funnel itself (judged below)
 		}
 		R.Check(ok, "C15.R1", "SanitizeReader", "(*Policy).SanitizeReader", c.P.Pos(fn.Pos()), "returns sanitizeWithBuff(r)", "does something other than returning sanitizeWithBuff(r)")
 	}
@@ -224,7 +227,18 @@ func c15Adapter(c *Ctx) {
 	var recv ssa.Value
 	for _, w := range s.Writes {
 		if w.Call.Common().IsInvoke() {
-			recv = w.Call.Common().Value
+			v := w.Call.Common().Value
+			// a helper that takes the destination as another interface type (io.StringWriter) sees a conversion of it
+			for {
+				ci, isCI := v.(*ssa.ChangeInterface)
+				if !isCI {
+					break
+				}
+				v = ci.X
+			}
+			if _, isPhi := recv.(*ssa.Phi); !isPhi || recv == nil {
+				recv = v
+			}
 		}
 	}
 	ph, ok := recv.(*ssa.Phi)
